@@ -84,6 +84,10 @@ def run_solver(classes, cp, request, field_names=(), answer=None, schedule_seed=
             if then_request:
                 # a second call on the same Solver asking for more forms (the API works incrementally)
                 out.first_ret = out.ret
+                try:
+                    out.first_solution = s.solution()      # a caller may well look at the intermediate result
+                except BaseException:  # noqa
+                    out.first_solution = None
                 out.ret = s.solve(list(then_request))
                 out.request = list(request) + [f for f in then_request if f not in request]
         except BaseException as e:  # noqa  (RecursionError, AssertionError, ...)
